@@ -111,6 +111,18 @@ else:
         pass
 
 
+def _is_same_file(fp, path):
+    """
+    Return True if `path` still refers to the file opened as `fp`.
+    """
+    try:
+        fd_stat = os.fstat(fp.fileno())
+        path_stat = os.stat(path)
+    except (OSError, IOError):
+        return False
+    return (fd_stat.st_dev, fd_stat.st_ino) == (path_stat.st_dev, path_stat.st_ino)
+
+
 class LockFile:
 
     _fp = None
@@ -135,6 +147,16 @@ class LockFile:
             except Exception:
                 pass
             raise ex
+
+        # The previous holder might have released the lock by removing the
+        # lock file between our open() and flock(). We hold a lock on an
+        # orphaned file then, while others can create and lock a new one.
+        if not _is_same_file(fp, path):
+            try:
+                fp.close()
+            except Exception:
+                pass
+            raise LockError("Lock file %r was removed while locking" % path)
 
         self._fp = fp
         fp.write(" %s\n" % os.getpid())
